@@ -364,10 +364,10 @@ Qed.
 (* ack_frame_fits / the writer never raises: on every reachable state, for every encodable delay and ANY room,
    the ACK part of datagrams_to_send ends without an exception (IndexError on an empty queue, BufferWriteError
    past the reserved capacity, ValueError of push_uint_var cannot occur) *)
-Theorem ack_writer_never_raises_l a s t delay room blocked : reach a s -> 0 <= delay < 2 ^ 62 ->
+Lemma send_never_raises_inv s t delay room blocked : Inv s -> 0 <= delay < 2 ^ 62 ->
   forall k, fst (send s t delay room blocked) <> SExn k.
 Proof.
-  intros R Hd k. pose proof (reach_inv _ _ R) as [I Ne].
+  intros [I Ne] Hd k.
   assert (K : forall s0, aq s0 = aq s -> aq s <> [] -> fst (write_ack s0 delay room) <> SExn k).
   { intros s0 Ea Hne. unfold write_ack. rewrite Ea.
     destruct (cap_ranges_spec (aq s) (i_wf _ I)) as (Wq & Mq & Lq & Nq & _).
@@ -390,6 +390,10 @@ Proof.
   - destruct (ack_at (set_clk s t)) eqn:A; [|cbn; congruence]. apply (K (set_clk s t)); [reflexivity|].
     apply Ne; [exact C|]. cbn in A. congruence.
 Qed.
+
+Theorem ack_writer_never_raises_l a s t delay room blocked : reach a s -> 0 <= delay < 2 ^ 62 ->
+  forall k, fst (send s t delay room blocked) <> SExn k.
+Proof. intros R. apply send_never_raises_inv. apply (reach_inv _ _ R). Qed.
 
 (* get_timer() never exceeds a pending ack_at (nor _close_at) *)
 Lemma tmin_le cur src : tmin cur src <= cur.
